@@ -1,9 +1,10 @@
 // C15 (a): Baggage value semantics and header round trip (Engine B).
 // Every history of Set / Delete up to a depth bound over keys and values drawn from the printable
 // classes, on the real Baggage in lock-step with an ordered-list model. After every operation:
-// receiver unchanged, replace / remove semantics, GetValue of every key of the alphabet, and
-// extract(inject(b)) through the real BaggagePropagator and a map carrier rebuilds the same entries
-// in the same order; the header itself is decoded by the independent reference decoder.
+// receiver unchanged, replace / remove semantics, GetValue of every key of the alphabet, GetAllEntries
+// with a callback that stops early, and extract(inject(b)) through the real BaggagePropagator and a map
+// carrier rebuilds the same entries in the same order; the header itself is decoded by the independent
+// reference decoder. A depth-1 configuration runs every printable byte as a key and as a value.
 //
 // Shape of the choice tree: the first depth-1 operations are picks; the last operation is a loop
 // over the whole alphabet inside the execution (a Baggage is an immutable value, every operation
@@ -11,6 +12,7 @@
 // iterations are independent). Histories that reach the same (entries, capacity) with the same
 // remaining depth before a pick are pruned.
 #include <algorithm>
+#include <cctype>
 
 #include "c15_common.h"
 
@@ -24,8 +26,30 @@ struct Config {
   int depth;
   int start;  // 0: empty, 1: two entries, 2: 179 entries
   std::vector<std::string> keys, values;
+  int slices = 1;  // the last-level loop is cut into this many executions (a pick), so that a wide alphabet is shared between workers
 };
 std::vector<Config> g_cfg;
+
+// "d1-bytes": every printable byte 0x20..0x7e as a one-byte key and as a one-byte value (so every byte outside
+// the token set goes through the encoder and the decoder, in a key and in a value, with both hex nibbles
+// covering 2..7 / 0..F), plus all punctuation in one string. The values' punctuation string in ASCII order
+// has ',' before ';' (no separator inside the metadata part, as the quantifier asks); a second one has no ';'.
+std::vector<std::string> byte_alphabet(bool values) {
+  std::vector<std::string> r;
+  std::string punct;
+  for (int b = 0x20; b <= 0x7e; ++b) {
+    r.push_back(std::string(1, (char)b));
+    if (!isalnum(b)) punct.push_back((char)b);
+  }
+  r.push_back(punct);  // " !\"#$%&'()*+,-./:;<=>?@[\\]^_`{|}~"
+  if (values) {
+    std::string no_semi = punct;
+    no_semi.erase(no_semi.find(';'), 1);
+    std::reverse(no_semi.begin(), no_semi.end());
+    r.push_back(no_semi);
+  }
+  return r;
+}
 
 // key classes: alnum (x2), space inside, '=', ',', '%' + hex digits, '+', ';', unreserved punctuation,
 // a single blank, trailing blank, lone '%'; outside the quantifier: empty key, control byte
@@ -53,7 +77,11 @@ void setup(vf::Options &o) {
     g_cfg.push_back({"d2-full", 2, 0, kKeysFull, kValuesFull});
     g_cfg.push_back({"d2-from2", 2, 1, kKeysFull, kValuesFull});
     g_cfg.push_back({"d2-from179", 2, 2, sub(kKeysFull, {0, 2, 7, 12}), sub(kValuesFull, {0, 8, 13})});
+    g_cfg.push_back({"d1-bytes", 1, 0, byte_alphabet(false), byte_alphabet(true), 32});
   } else {
+    g_cfg.push_back({"d1-bytes", 1, 0, byte_alphabet(false), byte_alphabet(true), 32});
+    // two entries whose keys / values are bytes the other alphabets do not contain
+    g_cfg.push_back({"d2-punct", 2, 0, {"/", ":", "\"", "\\", "!", "@", "{", "`", "<", "&"}, {"/", "?", "\"", "\\", "#", "[", "|", "^", ">;'", "*;("}});
     g_cfg.push_back({"d3-full", 3, 0, kKeysFull, kValuesFull});
     g_cfg.push_back({"d3-from2", 3, 1, keys9, values9});
     g_cfg.push_back({"d4", 4, 0, sub(kKeysFull, {0, 2, 3, 5, 6, 7, 9, 12}), sub(kValuesFull, {0, 1, 4, 5, 7, 8, 9, 10})});
@@ -79,6 +107,15 @@ bool same_mod_meta_blanks(const List &got, const List &want) {
   for (size_t i = 0; i < got.size(); ++i)
     if (!(got[i] == want[i] || got[i] == rtrim_meta(want[i]))) return false;
   return true;
+}
+
+// counters of the (unjudged) GetAllEntries behaviour: accumulated locally and flushed once per execution (the core's
+// counters live in memory shared by all workers)
+uint64_t g_gae[6];
+const char *const kGaeName[6] = {"getallentries_stops_after_false",        "getallentries_continues_after_false",      "getallentries_returns_true_after_false",
+                                 "getallentries_returns_false_after_false", "getallentries_returns_true_when_complete", "getallentries_returns_false_when_complete"};
+void flush_counters(vf::Ctx &c) {
+  for (int i = 0; i < 6; ++i) { if (g_gae[i]) c.counted(kGaeName[i], g_gae[i]); g_gae[i] = 0; }
 }
 
 size_t capacity_of(const Baggage &b) { return b.kv_properties_->max_num_entries_; }
@@ -126,8 +163,12 @@ void round_trip(vf::Ctx &c, const nostd::shared_ptr<Baggage> &cur, const List &m
   } else {
     c.counted("roundtrip_beyond_limits");
     if (got.size() > kMaxMembers) c.fail("C15:extract:more-than-180-members", vf::sfmt("extraction kept %zu members", got.size()));
-    if (!explains(x.members, got, false))
+    if (!explains(x.members, got, KeepPrefix{0}))
       c.fail("C15:extract:entry-not-a-decoding-of-a-member", vf::sfmt("after %s: beyond the limits extraction gave %s", hist.c_str(), show(got).c_str()));
+    // more than 180 entries: the first 180 members of the header are still demanded (c15_common.h, keep_prefix)
+    if (!explains(x.members, got, KeepPrefix{x.keep_prefix}))
+      c.fail("C15:roundtrip:entry-among-first-180-dropped",
+             vf::sfmt("after %s: the baggage holds %zu entries, extract(inject(b)) kept %zu and not all of the first 180: %s", hist.c_str(), model.size(), got.size(), show(got, 400).c_str()));
   }
 }
 
@@ -207,6 +248,38 @@ nostd::shared_ptr<Baggage> apply(vf::Ctx &c, const Config &cfg, const nostd::sha
     if (found != (want != nullptr)) c.fail("C15:getvalue:presence", vf::sfmt("after %s GetValue('%s') returned %d on %s", hist().c_str(), vfq::printable(k, 16).c_str(), (int)found, show(model).c_str()));
     if (want && v != *want) c.fail("C15:getvalue:value", vf::sfmt("after %s GetValue('%s') gave '%s' on %s", hist().c_str(), vfq::printable(k, 16).c_str(), vfq::printable(v, 30).c_str(), show(model).c_str()));
   }
+  // GetAllEntries with a callback that returns false at its call #j (j = 0, 1, never). Documented (baggage.h):
+  // "all key-values entries by repeatedly invoking the function reference passed as argument for each entry" -
+  // so the calls are the entries in order, up to and including the call that returned false, and all of them
+  // when the callback never does. Whether the iteration stops after a false and what GetAllEntries returns are
+  // not documented for Baggage: counted, not judged.
+  c.stage("GetAllEntries");
+  {
+    const size_t n = model.size();
+    size_t stops[3] = {0, 1, n};
+    const int nstops = n == 0 ? 1 : n == 1 ? 2 : 3;  // distinct values of {0, 1, n}; j >= n: the callback never returns false
+    for (int si = 0; si < nstops; ++si) {
+      const size_t j = stops[si], least = std::min(j + 1, n);
+      size_t calls = 0;
+      bool mismatch = false;  // judged: the calls up to and including the first one that returned false (no allocation here: this runs after every operation)
+      auto same = [](nostd::string_view a, const std::string &b) { return a.size() == b.size() && memcmp(a.data(), b.data(), b.size()) == 0; };
+      bool ret = next->GetAllEntries([&](nostd::string_view k, nostd::string_view v) noexcept {
+        const size_t i = calls++;
+        if (i < least && !(same(k, model[i].first) && same(v, model[i].second))) mismatch = true;
+        return i != j;
+      });
+      if (mismatch || calls < least || (j >= n && calls != n))
+        c.fail(j >= n ? "C15:getallentries:not-every-entry" : "C15:getallentries:calls-before-stop",
+               vf::sfmt("after %s GetAllEntries with a callback returning false at call #%zu made %zu calls%s; the %zu entries are %s", hist().c_str(), j, calls,
+                        mismatch ? ", not with the entries in order" : "", n, show(model).c_str()));
+      if (j < n) {
+        ++g_gae[calls == j + 1 ? 0 : 1];
+        ++g_gae[ret ? 2 : 3];
+      } else {
+        ++g_gae[ret ? 4 : 5];
+      }
+    }
+  }
   round_trip(c, next, model, hist());
   c.state(vf::sfmt("%zu|", capacity_of(*next)) + canon(entries(*next)));
   return next;
@@ -215,6 +288,7 @@ nostd::shared_ptr<Baggage> apply(vf::Ctx &c, const Config &cfg, const nostd::sha
 void run(vf::Ctx &c) {
   const int ci = c.pick("config", (int)g_cfg.size());
   const Config &cfg = g_cfg[ci];
+  for (auto &g : g_gae) g = 0;
   List model;
   nostd::shared_ptr<Baggage> cur(new Baggage());
   std::string hist = cfg.name;
@@ -238,6 +312,7 @@ void run(vf::Ctx &c) {
       // array and its length; the capacity (read by AddEntry) is part of the hash as well.
       vf::H128 h; h.add(0xc15a); h.add((uint64_t)(cfg.depth - d)); h.add((uint64_t)ci);
       h.add_str(canon(entries(*cur))); h.add(capacity_of(*cur));
+      flush_counters(c);  // prune_point may end the execution
       c.prune_point(h);
     }
     int op = c.pick("op", NOPS);
@@ -248,11 +323,13 @@ void run(vf::Ctx &c) {
   // last level: every operation of the alphabet on the state reached (no prune point here: a prune
   // point must be followed by a pick, otherwise the confirming replay of a violation is pruned itself)
   vf::H128 oh;
-  for (int op = 0; op < NOPS; ++op) {
+  const int slice = cfg.slices > 1 ? c.pick("slice", cfg.slices) : 0;
+  for (int op = slice; op < NOPS; op += cfg.slices) {
     List m2 = model;
     nostd::shared_ptr<Baggage> next = apply(c, cfg, cur, m2, op, hist);
     oh.add_str(canon(m2));
   }
+  flush_counters(c);
   c.outcome(vf::sfmt("%016llx%016llx", (unsigned long long)oh.a, (unsigned long long)oh.b));
   if (model.size() < 4) c.sample(hist + " => " + show(model) + vf::sfmt(", then each of the %d operations", NOPS));
 }
